@@ -42,7 +42,7 @@ def gen_op(rng):
 
 
 XPATHS = ['//div', '//*[@name="n1"]', '//span/p', '//*[@data-x="1"]/parent::*', '//p[1]', '//div[last()]', '//*[contains(@class, "x")]',
-          '/div//span[@id]', '//p[text()="hello"]', '//*[normalize-space()="x"]']
+          '/div//span[@id]', '//p[text()="hello"]', '//*[normalize-space()="x"]', '//div/*', '//*/*', '//span/*', '//p/*/*', '//div/*[1]']
 
 
 class C16(core.Check):
